@@ -33,6 +33,17 @@ pub fn run_schema<T: Model + BorshSerialize + BorshDeserialize + BorshSchema>(op
             let c = BorshSchemaContainer::for_type::<T>();
             format!("ok {}\t{}\t{}", dump_container(&c), validate_s(&c), maxsize_s(&c))
         }
+        ("schema-helpers", _) => {
+            // the free functions of schema_helpers.rs next to the methods they abbreviate
+            let c = BorshSchemaContainer::for_type::<T>();
+            let same = borsh::schema_container_of::<T>() == c;
+            let h = match std::panic::catch_unwind(|| borsh::max_serialized_size::<T>()) {
+                Err(_) => "panic".to_string(),
+                Ok(Ok(n)) => format!("ok {}", n),
+                Ok(Err(e)) => format!("err {:?}", e).split('(').next().unwrap_or("err").to_string(),
+            };
+            format!("ok {}\t{}\t{}", same, h, maxsize_s(&c))
+        }
         ("encws", [v]) => {
             let v = match parse_val(v) {
                 Ok(v) => v,
@@ -65,7 +76,7 @@ pub fn sch<T: Model + BorshSerialize + BorshDeserialize + BorshSchema>(id: u32) 
 }
 
 pub fn is_schema_op(op: &str) -> bool {
-    matches!(op, "schema" | "encws" | "decws")
+    matches!(op, "schema" | "schema-helpers" | "encws" | "decws")
 }
 
 // ------------------------------------------------------------------ derived items
